@@ -204,6 +204,18 @@ func init() {
 				c.DFS(name, b)
 			}
 		}
+		// every writer x reader pair of every registry (the pairs C12 judges for linearizability)
+		for _, reg := range c12Registries {
+			ws, rs := c12Ops(reg)
+			for _, w := range ws {
+				for _, r := range rs {
+					name := fmt.Sprintf("c12/%s/sl/%s+%s", reg, w, r)
+					if scenarios[name] != nil && name != "c12/tools/sl/regA2+list" && name != "c12/prompts/sl/regA2+callA" && name != "c12/nhandlers/sl/unregA+callA" {
+						c.DFS(name, explore.Bounds{Preempt: c.Pick(1, 2), Dev: 1, POR: true, MaxExec: c.Pick(600, 20000)})
+					}
+				}
+			}
+		}
 		for _, name := range c20Extra {
 			if scenarios[name] != nil {
 				c.DFS(name, b)
